@@ -303,3 +303,10 @@ Proof.
   repeat (apply andb_true_iff in H; destruct H as [H ?]).
   rewrite forallb_forall in H5. apply (H5 (k, ks) Hin).
 Qed.
+
+(* ---------- the proxy-case oracle accepts what the model produces ---------- *)
+
+(* agreement with the model on an answer that is not "unknown": a failed condition comes from a model run in which
+   the request applied nothing, and (C01_failure_justified on a one-request run) the key differed when it came in *)
+Lemma proxy_oracle_error c : is_error (px_resp c) = true -> proxy_ok c = true.
+Proof. unfold proxy_ok. destruct (px_resp c); simpl; try discriminate. reflexivity. Qed.
